@@ -43,7 +43,7 @@ RULE = (
 UNARY_CONSTRAINTS = [None, "to_output_scale", "to_grad_input_scale", "gmean", "hmean", "amean"]
 TERNARY_CONSTRAINTS = [None, "to_output_scale", "to_left_grad_scale", "to_right_grad_scale", "gmean", "hmean", "amean"]
 ATOMS = ["gelu", "silu", "softmax", "dropout", "layer_norm", "rms_norm", "linear", "linear_readout", "matmul",
-         "add", "add_scalar", "add_bcast", "residual", "silu_glu", "sdpa", "conv1d", "scale"]
+         "add", "add_scalar", "add_bcast", "residual", "silu_glu", "sdpa", "conv1d", "scale", "graph_break"]
 MODULES = ["Linear", "MLP", "MHSA", "TransformerLayer", "LayerNorm", "RMSNorm", "GELU", "SiLU", "Softmax",
            "LinearReadout", "DepthSequential", "Embedding", "Conv1d", "Dropout"]
 
@@ -134,6 +134,11 @@ def generate(seed: int, tier: str, phase: str) -> Dict[str, Any]:
                             "reduction": r.choice(["mean", "sum"])}
         if r.random() < 0.15:
             plan["embed"] = {"vocab": r.choice([7, 13])}
+        if kind != "loss" and r.random() < 0.3:
+            # several outputs leave the compiled region, some of them aliases of one
+            # intermediate that differ only in their backward factor
+            plan["tail"] = {"kind": r.choice(["split", "split", "pair_scale_bwd", "pair_fn"]),
+                            "tau": r.choice([0.5, 1.0, 0.2]), "s": r.choice([0.25, 2.0])}
     plan["knobs"] = {"recompile_limit": r.choice([1, 2, 8, 8]), "automatic_dynamic": r.random() < 0.7,
                      "dynamic": r.choice([None, None, False]), "fullgraph": r.random() < 0.5}
     if plan["knobs"]["fullgraph"]:
@@ -254,6 +259,7 @@ def build(plan: Dict[str, Any]) -> Built:
     atoms = plan["atoms"]
     loss = plan.get("loss")
     embed = plan.get("embed")
+    tail = plan.get("tail")
 
     # the weight layout is derived per call from (batch, D): (list of shapes, per-atom slices)
     def layout(batch: List[int], D: int) -> Tuple[List[Tuple[str, Tuple[int, ...]]], List[int]]:
@@ -368,6 +374,15 @@ def build(plan: Dict[str, Any]) -> Built:
                                  constraint=a["constraint"])
             elif k == "scale":
                 x = scale_bwd(scale_fwd(x, a["fwd"]), a["bwd"])
+            elif k == "graph_break":
+                if not plan["knobs"]["fullgraph"]:
+                    torch._dynamo.graph_break()
+        if tail:
+            if tail["kind"] == "split":
+                return U.residual_split(x, tail["tau"])
+            if tail["kind"] == "pair_scale_bwd":
+                return x, scale_bwd(x, tail["s"])
+            return x, U.gelu(x)
         if loss:
             t = next(it)
             if loss["kind"] == "cross_entropy":
@@ -431,13 +446,18 @@ def _call(fn: Any, module: Any, args: List[Any], mode: str, gseed: int) -> Dict[
             y = fn(*args)
     else:
         y = fn(*args)
-    res: Dict[str, Any] = {"out": y.detach().clone(), "req": bool(y.requires_grad), "grads": None}
-    if mode == "bwd" and y.requires_grad:
-        g = torch.randn(y.shape, generator=torch.Generator().manual_seed(gseed), dtype=torch.float32).to(y.dtype)
+    ys = list(y) if isinstance(y, (tuple, list)) else [y]
+    res: Dict[str, Any] = {"outs": [t.detach().clone() for t in ys], "req": [bool(t.requires_grad) for t in ys],
+                           "grads": None}
+    res["out"] = res["outs"][0]
+    diff = [t for t in ys if t.requires_grad]
+    if mode == "bwd" and diff:
+        gen = torch.Generator().manual_seed(gseed)
+        gs_in = [torch.randn(t.shape, generator=gen, dtype=torch.float32).to(t.dtype) for t in diff]
         wrt = [t for t in args if t.is_floating_point() and t.requires_grad]
         if module is not None:
             wrt = wrt + [p for p in module.parameters()]
-        gs = torch.autograd.grad(y, wrt, g, allow_unused=True)
+        gs = torch.autograd.grad(diff, wrt, gs_in, allow_unused=True)
         res["grads"] = [None if x is None else x.detach().clone() for x in gs]
     return res
 
@@ -488,7 +508,8 @@ def execute(plan: Dict[str, Any]) -> Dict[str, Any]:
         probes[name] = probes.get(name, 0) + k
 
     sig = plan["kind"] + ":" + ("+".join(a["atom"] for a in plan["atoms"]) or plan.get("module", {}).get("type", "")) + \
-        (":" + plan["loss"]["kind"] if plan.get("loss") else "") + (":embed" if plan.get("embed") else "")
+        (":" + plan["loss"]["kind"] if plan.get("loss") else "") + (":embed" if plan.get("embed") else "") + \
+        (":tail_" + plan["tail"]["kind"] if plan.get("tail") else "")
     res["opseq"].append(sig)
     try:
         built = build(plan)
@@ -565,7 +586,11 @@ def execute(plan: Dict[str, Any]) -> Dict[str, Any]:
                 outcomes.append(oc)
                 probe("outcome:" + oc)
                 tol_scale = 4.0 if backend == "inductor" else 1.0
-                d = _cmp(got["out"], want["out"], "output", tol_scale)
+                d = None
+                if len(got["outs"]) != len(want["outs"]):
+                    d = f"output: {len(got['outs'])} outputs vs eager {len(want['outs'])}"
+                for j, (x, y) in enumerate(zip(got["outs"], want["outs"])):
+                    d = d or _cmp(x, y, f"output[{j}]", tol_scale)
                 if d is None and got["req"] != want["req"]:
                     d = f"output.requires_grad {got['req']} vs eager {want['req']}"
                 if d is None and (got["grads"] is None) != (want["grads"] is None):
@@ -605,6 +630,8 @@ def execute(plan: Dict[str, Any]) -> Dict[str, Any]:
 
 
 def _exc_culprit(e: BaseException, knobs: Optional[Dict[str, Any]] = None) -> str:
+    if "Guard failed on the same frame it was created" in str(e):
+        return "call_raised:dynamo_float_guard_on_symbolic_scale"
     if knobs and knobs.get("dynamic") is True and type(e).__name__ in ("AssertionError", "InternalTorchDynamoError"):
         return "call_raised:dynamic_true_symbolic_scale"
     return "call_raised:" + type(e).__name__
@@ -644,6 +671,8 @@ def _fx_phase(plan: Dict[str, Any], built: Built, res: Dict[str, Any], log: Any,
     # 1. plain symbolic trace: forward values (first call's shapes are baked in by design)
     op = calls[0]
     args = built.make_args(op)
+    if plan.get("tail"):
+        return  # several outputs: the fx phases compare single-output callables only
     with torch.no_grad():
         try:
             want = built.fn(*[t.clone() for t in args])
@@ -708,6 +737,10 @@ def _fx_phase(plan: Dict[str, Any], built: Built, res: Dict[str, Any], log: Any,
 
 
 def neutralise(plan: Dict[str, Any], finding: Dict[str, Any]) -> Optional[Dict[str, Any]]:
+    if finding.get("id") == "D14":
+        c = copy.deepcopy(plan)
+        c["knobs"].update(dynamic=False, automatic_dynamic=False)  # counterfactual: static recompiles only
+        return c
     if finding.get("id") == "D12" and plan.get("knobs", {}).get("dynamic") is True:
         c = copy.deepcopy(plan)
         c["knobs"]["dynamic"] = None  # counterfactual: let Dynamo decide (automatic dynamic shapes)
@@ -729,6 +762,10 @@ def simplify(plan: Dict[str, Any]) -> Iterable[Dict[str, Any]]:
     if plan.get("embed"):
         c = copy.deepcopy(plan)
         del c["embed"]
+        yield c
+    if plan.get("tail"):
+        c = copy.deepcopy(plan)
+        del c["tail"]
         yield c
     for i, op in enumerate(plan["ops"]):
         if op["op"] == "call":
